@@ -161,6 +161,15 @@ def same(r, m):
     return r["res"][0] != "ok" or r["res"][1] == m["res"][1]
 
 
+def jit_only(prog, spec_rec, module):
+    """real != S with the JIT: does the interpreter alone (STEEL_JIT=false) agree with S?  Then the difference belongs to
+    the native tier (property C02 decides those; its open findings K02g/i/m/n are JIT-only miscompilations)."""
+    r = run_real([prog], env={"STEEL_JIT": "false"}, args=(["--module"] if module else []))[0]
+    if module:
+        return r["res"][0] == spec_rec["res"][0] and r["out"].strip() == spec_rec["out"].strip()
+    return same(r, spec_rec)
+
+
 def run(ctx):
     stats = {"programs": 0, "disagreements_checked": 0, "seen": set(), "features": {}, "samples": [],
              "frag": 0, "frag_model_mismatch": 0, "known_hits": {}, "outcomes": {"ok": 0, "err": 0}}
@@ -212,6 +221,10 @@ def run(ctx):
         if same(r, m):
             continue
         stats["disagreements_checked"] += 1
+        if "K01j" in known and jit_only(p, m, False):
+            ctx.known_finding("id=K01j " + known["K01j"])
+            stats["known_hits"]["K01j"] = stats["known_hits"].get("K01j", 0) + 1
+            continue
         if probe_of.get(p) in known:
             # the witness program of an open finding (corpus file with a `# finding:` header) still fails
             ctx.known_finding("id=%s %s" % (probe_of[p], known[probe_of[p]]))
@@ -238,6 +251,10 @@ def run(ctx):
         stats["disagreements_checked"] += 1
         if probe_of.get(progs[i]) in known:
             continue                       # already reported above as the witness of an open finding
+        if "K01j" in known and jit_only(p, m, True):
+            ctx.known_finding("id=K01j " + known["K01j"])
+            stats["known_hits"]["K01j"] = stats["known_hits"].get("K01j", 0) + 1
+            continue
         ctx.violation("C01-module-%d.txt" % i, "# program evaluated as a module: (require \"<file>\") with this text\n%s\n# real engine : %s output=%r\n# specification: %s output=%r\n" % (
             p, r["res"][0], r["out"][:300], m["res"][0], m["out"][:300]))
         if len(ctx.violations) >= 8:
